@@ -181,6 +181,11 @@ def blocks(thorough):
             dict(id="expr-kinds-n3", stmt="expr", nmin=3, nmax=3, bases=("words",), variant="kind_bare", uniform=True),
             dict(id="expr-negcodes-n2", stmt="expr", nmax=2, k=1, bases=("name", "words"), codes=(0, -1, -15)),
             dict(id="expr-negcodes-n3", stmt="expr", nmin=3, nmax=3, bases=("name", "words"), codes=(0, -1), uniform=True),
+            # flat 4-operand chains (one n-ary BoolOp: operands 3 and 4 are built by the parser's n-operand branch);
+            # every form at every position.  A 3rd operand that is not the last is what makes a wrongly handled
+            # operand 3+ observable: in a 3-operand chain a failing last operand raises either way.
+            dict(id="expr-n4-flat-single-op", stmt="expr", nmin=4, nmax=4, bases=("name", "words"), only="flat_single", variant="form"),
+            dict(id="expr-n4-flat-mixed", stmt="expr", nmin=4, nmax=4, bases=("words",), only="flat_mixed", variant="form", uniform=True),
         ]
     else:
         spec = [
@@ -201,6 +206,8 @@ def blocks(thorough):
             dict(id="expr-kinds-n2", stmt="expr", nmax=2, bases=("name", "words"), seps=(";", "nl"), variant="kind_full"),
             dict(id="expr-kinds-n3", stmt="expr", nmin=3, nmax=3, bases=("name", "words"), variant="kind_bare"),
             dict(id="expr-negcodes", stmt="expr", nmax=3, k=1, bases=("name", "words"), codes=(0, -1, -15)),
+            dict(id="expr-n4-flat-name", stmt="expr", nmin=4, nmax=4, bases=("name",), only="flat", variant="form"),
+            dict(id="expr-n4-flat-words-semicolon", stmt="expr", nmin=4, nmax=4, bases=("words",), seps=(";",), only="flat", variant="form"),
         ]
     return [dict(d, **b) for b in spec]
 
@@ -225,6 +232,11 @@ def block_items(bi, b):
         sis = [si for si in range(len(shp)) if not b["uniform"] or _uniform(shp[si])]
         if b["only"] == "all_subchains":
             sis = [si for si in sis if all_subchains(shp[si])]
+        elif b["only"] in ("flat", "flat_single", "flat_mixed"):
+            # un-parenthesised chains: one n-ary BoolOp per run of equal-precedence operators
+            flat = [si for si in sis if not isinstance(shp[si], int) and all(isinstance(x, int) for x in shp[si][1])]
+            single = [si for si in flat if len(set(shp[si][2])) == 1]
+            sis = {"flat": flat, "flat_single": single, "flat_mixed": [si for si in flat if si not in single]}[b["only"]]
         for base_text in b["bases"]:
             base = _base_op(b["stmt"], base_text)
             if b["variant"] == "form_x_dec":
@@ -233,6 +245,8 @@ def block_items(bi, b):
                 vs = variants_kind(b["stmt"], n, base, b["variant"] == "kind_full")
                 if b["variant"] == "kind_bare":
                     vs = [v for v in vs if all(o[0] == "bare" and o[1] == "" for o in v)]
+            elif b["variant"] == "form":  # all bare, and every other form at every single position
+                vs = [v for v in variants(b["stmt"], n, base, 1) if all(o[1:] == tuple(base[1:]) for o in v)]
             else:
                 vs = variants(b["stmt"], n, base, b["k"])
             for ops in vs:
